@@ -99,7 +99,11 @@ func (g *c04Gen) mk(class string) string {
 			toks = append(toks, tokRef(p, refForm))
 		}
 	}
-	toks = append(toks, tokLit("."), tokEsc(q, []string{"dd", "bs"}[g.rng.Intn(2)]))
+	qv := q
+	if g.rng.Intn(3) == 0 {
+		qv = "{" + q + "}" // an escaped BRACED reference, `$${Q}` / `\${Q}`: comes out as the text `${Q}` - and stays that
+	}
+	toks = append(toks, tokLit("."), tokEsc(qv, []string{"dd", "bs"}[g.rng.Intn(2)]))
 	if g.rng.Intn(2) == 0 {
 		toks = append(toks, tokLit("-e"))
 	}
